@@ -20,8 +20,8 @@ theorem no_lost_wakeup_partial :
     ∧ (run currentCfg (World.start fun _ => 0) staleWriterActs).ghost.dropped = []
     ∧ (run currentCfg (World.start fun _ => 0) staleCloseActs).ghost.dropped = [] := by decide
 
-/-- the current source has every test the model knows about, with the reference operators -/
-theorem current_source_checks : currentCfg = Cfg.good := by decide
+/- `current_source_checks : currentCfg = Cfg.good` (every test / fix the model knows about is present in the current
+   source) is in `Ev/SourceChecks.lean`: a tree lacking one fix breaks that module only. -/
 
 /-! ## invariants over ALL action sequences, for the configuration of the current source -/
 
